@@ -65,7 +65,7 @@ def c01_build(sig: int, how: int, s0: bool, s1: bool, s2: bool, s3: bool, so: bo
   nest 1..5: a child Config inside a wrapper at argument position npos; nest 6..15: a special leaf
   (None, falsy values, empty containers, ...) at that position.  xn selects the name of the extra
   **kwargs entry (including names that collide with positional-only / *args / **kw parameters).
-  require: 0 <= sig < 324 and 0 <= how <= 1 and 0 <= nva <= 2 and 0 <= nest <= 15 and 0 <= npos <= 6
+  require: 0 <= sig < 324 and 0 <= how <= 2 and 0 <= nva <= 2 and 0 <= nest <= 15 and 0 <= npos <= 6
   require: 0 <= xn <= 5
   """
   fn, shape = sigs.SIGS[sig]
@@ -115,12 +115,27 @@ def c01_build(sig: int, how: int, s0: bool, s1: bool, s2: bool, s3: bool, so: bo
     cfg = fdl.Config(fn, *cvals[:prefix], *cvar, **kwargs)
   else:
     cfg = fdl.Config(fn)
-    for i in range(F):
-      if mask[i]:
-        if i < shape.p or not (i % 2):
-          cfg[i] = cvals[i]
-        else:
+    if how == 2:
+      # edit history with a build in the middle: named edits, a (discarded) build, then the index / slice edits
+      for i in range(F):
+        if mask[i] and not (i < shape.p or not (i % 2)):
           setattr(cfg, ref.pos_names[i], cvals[i])
+      if use_o:
+        cfg.o0 = cvo
+      try:
+        fdl.build(cfg)
+      except Exception:  # pylint: disable=broad-except
+        pass
+      for i in range(F):
+        if mask[i] and (i < shape.p or not (i % 2)):
+          cfg[i] = cvals[i]
+    else:
+      for i in range(F):
+        if mask[i]:
+          if i < shape.p or not (i % 2):
+            cfg[i] = cvals[i]
+          else:
+            setattr(cfg, ref.pos_names[i], cvals[i])
     if cvar:
       cfg[fdl.VARARGS:] = cvar
     if use_o:
@@ -292,7 +307,7 @@ def obligations(tier, seed):
   cubes = []
   gap_free = '(s0 or not s1) and (s1 or not s2) and (s2 or not s3)'
   for s in plain:
-    cubes.append(Cube(f's{s}_h0', [], dict(sig=s, how=0, nest=0, npos=0, xn=0), est=200))
+    cubes.append(Cube(f's{s}_h0', [], dict(sig=s, how=0 if s % 3 else 2, nest=0, npos=0, xn=0), est=200))
     # constructor path: only gap-free prefixes reach it (other masks fall back to the edit path)
     cubes.append(Cube(f's{s}_h1', [gap_free], dict(sig=s, how=1, nest=0, npos=0, xn=0), est=60))
     if sigs.SIGS[s][1].vk:
